@@ -1,0 +1,15 @@
+//go:build verif
+
+package upstream
+
+// This file is only built with the "verif" build tag. It exposes the address
+// helper functions to the external verification harness.
+
+var (
+	VerifParseDialAddr       = parseDialAddr
+	VerifTrySplitHostPort    = trySplitHostPort
+	VerifTryRemovePort       = tryRemovePort
+	VerifTryTrimIpv6Brackets = tryTrimIpv6Brackets
+	VerifMsgTruncated        = msgTruncated
+	VerifParseBootstrapAp    = parseBootstrapAp
+)
